@@ -460,7 +460,10 @@ func ruleRecoverability(c *Ctx, r *Report) {
 	// records one epoch ahead are queued, and replayed after every read-key installation
 	const rule2 = "queued-records-replayed"
 	if fn := c.need(r, rule2, "(*dtls.Conn).handleFutureLegacyPacket"); fn != nil {
-		enq := findCalls(fn, nameHasSuffix("readBufferLease).enqueue"))
+		// (directly, or in a helper of the connection that holds the lease check)
+		enq := callsReached(fn, followSamePkg(fn), func(cl *ssa.Call) bool {
+			return strings.HasSuffix(calleeName(&cl.Call), "readBufferLease).enqueue")
+		})
 		r.Check(len(enq) == 1, rule2, short(fn)+":enqueue", c.pos(fn.Pos()), "future-epoch records are queued", "records of the next epoch are no longer queued (a Finished overtaking its ChangeCipherSpec is lost)")
 	}
 	n := 0
@@ -472,12 +475,30 @@ func ruleRecoverability(c *Ctx, r *Report) {
 			continue
 		}
 		// functions that go on to pull an epoch+1 message after installing keys
+		// (the pull itself, or the call of a helper of the package that does the pulling)
 		var pulls []*ssa.Call
-		for _, p := range findCalls(fn, nameHasSuffix("Cache).FullPullMapItems")) {
+		protectedPull := func(p *ssa.Call) bool {
 			if rl, ok := c.ruleList(p.Call.Args[len(p.Call.Args)-1], 0); ok {
 				for _, pr := range rl {
 					if pr.Epoch == "E+1" {
+						return true
+					}
+				}
+			}
+			return false
+		}
+		for _, p := range findCalls(fn, func(string) bool { return true }) {
+			if strings.HasSuffix(calleeName(&p.Call), "Cache).FullPullMapItems") {
+				if protectedPull(p) {
+					pulls = append(pulls, p)
+				}
+				continue
+			}
+			if g := p.Call.StaticCallee(); g != nil && g.Pkg == fn.Pkg && len(g.Blocks) > 0 && !isParser12(g) {
+				for _, hp := range findCalls(g, nameHasSuffix("Cache).FullPullMapItems")) {
+					if protectedPull(hp) {
 						pulls = append(pulls, p)
+						break
 					}
 				}
 			}
